@@ -72,7 +72,9 @@ class Target(object):
                          ['central.drug_amount',
                           'central.drug_concentration'],
                          ['central.drug_concentration',
-                          'central.drug_amount']]
+                          'central.drug_amount'],
+                         # exists only while the route is indirect
+                         ['dose.drug_amount', 'central.drug_concentration']]
         else:
             rng = np.random.default_rng(12345)
             while True:
@@ -109,6 +111,7 @@ class State(object):
         self.outs = None
         self.sens = False
         self.sens_sub = None   # original names of a sensitivity subset
+        self.user_protocol = None   # caller-owned myokit.Protocol (alias)
         self.pnames = {}
         self.onames = {}
         self.reduced = False
@@ -126,6 +129,17 @@ class State(object):
                 self.reduced, tuple(sorted(self.fixed)))
 
 
+PROTOCOLS = [((1.5, 0.4, 0.3),), ((2.0, 0.2, 0.1), (0.5, 1.2, 0.4))]
+
+
+def _protocol(events):
+    import myokit
+    p = myokit.Protocol()
+    for level, start, duration in events:
+        p.schedule(level, start, duration)
+    return p
+
+
 def replay(tg, st):
     m = tg.fresh()
     if st.admin is not None:
@@ -134,7 +148,10 @@ def replay(tg, st):
     if st.outs is not None:
         m.set_outputs(list(tg.outs[st.outs]))
     if st.reg is not None:
-        m.set_dosing_regimen(**REGS[st.reg])
+        if isinstance(st.reg, tuple):
+            m.set_dosing_regimen(_protocol(st.reg))
+        else:
+            m.set_dosing_regimen(**REGS[st.reg])
     if st.pnames:
         m.set_parameter_names(dict(st.pnames))
     if st.onames:
@@ -258,6 +275,19 @@ def core_ops(tg):
     return ops
 
 
+_ORIG = {}
+
+
+def _original_parameters(tg, admin):
+    key = (tg.which, admin)
+    if key not in _ORIG:
+        f = tg.fresh()
+        (c, v), d = admin
+        f.set_administration(c, amount_var=v, direct=d)
+        _ORIG[key] = set(f.parameters())
+    return _ORIG[key]
+
+
 def _sens_cols(m, st):
     if st.sens_sub is None:
         return None
@@ -269,7 +299,9 @@ def extended_ops(tg):
     return core_ops(tg) + [
         ('copy', 'original'), ('rename_param',), ('rename_out',),
         ('wrap',), ('fix',), ('release',), ('sim',), ('sens_sub',),
-        ('sens_sub',), ('rename_param',), ('rename_back',)]
+        ('sens_sub',), ('rename_param',), ('rename_back',),
+        ('reg_protocol', 0), ('reg_protocol', 1), ('mutate_protocol',),
+        ('mutate_reported_regimen',)]
 
 
 def apply(ctx, rng, tg, m, st, op, side, hist):
@@ -277,13 +309,41 @@ def apply(ctx, rng, tg, m, st, op, side, hist):
     k = op[0]
     red = isinstance(m, chi.ReducedMechanisticModel)
     if k == 'admin':
-        if red or st.pnames or st.onames:
+        if red:
             return None
+        uses_depot = st.outs is not None and any(
+            o.startswith('dose.') for o in tg.outs[st.outs])
+        if uses_depot:
+            # the selected outputs may not exist for the new route: the
+            # call may refuse, but then it must leave the model as it was
+            before = observe(m, tg)
+            try:
+                m.set_administration(tg.comps[op[1]][0],
+                                     amount_var=tg.comps[op[1]][1],
+                                     direct=op[2])
+            except (KeyError, ValueError):
+                ctx.count('refused_configuration_calls')
+                after = observe(m, tg)
+                compare(ctx, after, before,
+                        'refused_call_leaves_model_unchanged', hist,
+                        {'op': 'admin', 'target': tg.which})
+                return 'stop'
+            if op[2]:
+                return 'stop'       # accepted: outputs then unspecified
+            st.admin = (tg.comps[op[1]], op[2])
+            st.sens = False
+            st.sens_sub = None
+            st.pnames = {k_: v for k_, v in st.pnames.items()
+                         if k_ in _original_parameters(tg, st.admin)}
+            return m, st
         m.set_administration(tg.comps[op[1]][0],
                              amount_var=tg.comps[op[1]][1], direct=op[2])
         st.admin = (tg.comps[op[1]], op[2])
         st.sens = False
         st.sens_sub = None
+        # names given to parameters / outputs that still exist are kept
+        st.pnames = {k_: v for k_, v in st.pnames.items()
+                     if k_ in _original_parameters(tg, st.admin)}
     elif k == 'reg':
         if st.admin is None:
             try:
@@ -297,11 +357,34 @@ def apply(ctx, rng, tg, m, st, op, side, hist):
             return None
         m.set_dosing_regimen(**REGS[op[1]])
         st.reg = op[1]
+        st.user_protocol = None
+    elif k == 'reg_protocol':
+        if st.admin is None:
+            return None
+        p = _protocol(PROTOCOLS[op[1]])
+        m.set_dosing_regimen(p)
+        st.reg = PROTOCOLS[op[1]]
+        st.user_protocol = p
+    elif k == 'mutate_protocol':
+        # the caller re-uses the Protocol object it passed in earlier for
+        # its next scenario: not a configuration call on the model
+        if st.user_protocol is None:
+            return None
+        st.user_protocol.schedule(7.0, 2.0 + 0.1 * len(hist), 0.05)
+    elif k == 'mutate_reported_regimen':
+        # ... or edits the object the getter returned
+        r = m.dosing_regimen()
+        if r is None:
+            return None
+        r.schedule(5.0, 3.0 + 0.1 * len(hist), 0.05)
     elif k == 'out':
         # outputs may be addressed by their original or by their current
         # (renamed) name; names of outputs that are de-selected are dropped
         # (a fresh model that selects them again shows the original name)
         names = list(tg.outs[op[1]])
+        if any(o.startswith('dose.') for o in names) and (
+                st.admin is None or st.admin[1]):
+            return None         # no depot compartment: not applicable
         if st.onames and rng.random() < 0.5:
             names = [st.onames.get(n, n) for n in names]
         m.set_outputs(names)
